@@ -324,6 +324,8 @@ def run(m, tier):
     results.append(reader_rules.rule_queue_one(m, "C19.R7"))
     from rules import one_taint
     results.append(one_taint.taint_rule(m, "C19.R8"))
+    results.append(one_taint.embedded_label_rule(m, "C19.R9"))
+    results.append(one_taint.label_field_rule(m, "C19.R10"))
     expl = ("Decides structural clauses of C19 over the statement classes of fparser.one: the literal keyword prefix each printer emits "
             "(lower-cased as the reader does) is a viable prefix of the class's own match regex (prefix viability on the sre parse "
             "tree); every block statement names an END class whose regex accepts the `END <blocktype> [name]` line that class prints; "
